@@ -107,13 +107,13 @@ contract("decaylanguage.dec.dec.get_lineshapePW_definitions", types={"parsed_fil
 from pyvc.contracts import REG  # noqa: E402
 
 
-def wrapper(method, getter, props, labels):
+def wrapper(method, getter, props, labels, extra_raises=None):
     g = REG.contracts["decaylanguage.dec.dec." + getter]
     sub = lambda src: src.replace("parsed_file", "self._parsed_dec_file")
     contract("decaylanguage.dec.dec.DecFileParser." + method,
              requires=[f"self._parsed_dec_file is None or (typ(self._parsed_dec_file, 'obj:Tree') and wf_labels(self._parsed_dec_file, {labels}))"],
              ensures=[sub(e) for e in g.ensures_src],
-             raises={"DecFileNotParsed": "self._parsed_dec_file is None"},
+             raises=dict({"DecFileNotParsed": "self._parsed_dec_file is None"}, **(extra_raises or {})),
              returns=g.returns, properties=props)
 
 
@@ -186,3 +186,7 @@ contract("decaylanguage.dec.dec.get_pythia_definitions", types={"parsed_file": "
                                         + pythia_props("d", "_seq", "_i"),
                            "types": {"d": "dict"}}},
          returns="dict", properties=["C07"])
+
+
+wrapper("dict_pythia_definitions", "get_pythia_definitions", ["C07"], "'pythia_def'")
+wrapper("get_particle_property_definitions", "get_particle_property_definitions", ["C07"], "'particle_def', 'alias'", {"RuntimeError": None})
